@@ -76,7 +76,7 @@ def classify(problem):
         return 'validate-false-alarm'
     if 'were reused' in p:
         return 'resume-does-not-reuse-entries'
-    if 'unchanged tree wrote block' in p or 'different addresses than in the previous' in p:
+    if 'unchanged tree wrote block' in p or 'different addresses than in the previous' in p or 'work stored again' in p:
         return 'unchanged-tree-stored-again'
     if 'reported success but' in p or ('lists' in p and 'the source has' in p):
         return 'false-success'
@@ -129,7 +129,7 @@ def reproduced(kind, out, bad):
     if kind == 'interrupted-version-listing-errors':
         return any(v.get('restore_errors') for v in (out.get('versions') or []))
     if kind == 'interrupted-version-listing':
-        return any(v.get('differences') for v in versions)
+        return any(v.get('differences') or len(set(v.get('listing') or [])) != len(v.get('listing') or []) for v in versions)
     if kind in ('format', 'metadata-recorded-wrong'):
         return any(v.get('differences') or v.get('restore_errors') for v in versions) or True
     return False
@@ -268,7 +268,8 @@ def path_role(p):
 
 def case_name(c):
     return '%s/%s/%s%s%s%s' % (c['kinds'], ''.join(map(str, c['classes'])), c['mode'], '/prior=' + c['prior'] if c.get('prior') else '',
-                               '/nested-paths' if c.get('paths') else '', '/headless-band-above' if c.get('headless_above') else '')
+                               '/nested-paths' if c.get('paths') else '', '/headless-band-above' if c.get('headless_above') else '') + \
+        ('/sizes=%s/opts=%s' % (c['sizes'], list(c['fixed_opts'])) if c.get('sizes') and c.get('fixed_opts') and not c.get('paths') else '')
 
 
 COMMON_ASSUMPTIONS = [
